@@ -2,6 +2,7 @@ import PlcProofs.Lemmas.FullParen
 import PlcProofs.Lemmas.RenderExpr
 import PlcModel.Parse.Lit
 import PlcProofs.Lemmas.MirrorExpr
+import PlcProofs.Lemmas.RenderWords
 
 /-!
 # C10 — re-rendering round-trips
@@ -29,6 +30,14 @@ What is proved (for trees of unbounded size and depth):
   renderer writes for a duration / the fraction of a time of day gives the value back.
 * `duration_split_exact` — the unit split the renderer writes for a duration loses nothing and the
   count before the unit fits the 64-bit whole part the parser reads.
+
+* `renderer_words_are_keywords`, `renderer_operators_are_table_tokens`, `renderer_unary_operators`,
+  `renderer_direct_literals_lex` — over **every string literal of renderer.rs** (`Gen.renderLits`, re-extracted from the
+  source on every run): each word in capitals it writes is read by the lexer (`Gen.table`, from token.rs) as one
+  reserved-word token or is a word the grammar matches by text (`Gen.textKw`, from parser.rs) — with the one
+  exception of the recorded finding C10-task-interval (`INTERNAL`), named in the statement; for each row of the
+  `precedence!` block the renderer has a match arm for that operator whose text lexes to exactly the row's token;
+  `-` / `NOT` lex to the tokens the unary rule reads; everything passed to `write` / `write_ws` lexes without error.
 
 What is *not* proved: the round trip through the full parser mirror and the full renderer model for
 declarations and literals (`library_roundtrip`); there the tie is the oracle on the implementation
@@ -130,5 +139,58 @@ theorem duration_render_read (mag per scale : Nat) (hper : (per = 1000000 ∧ sc
 dropped) is a whole number of nanoseconds for the reader and is read back as `nano` -/
 theorem tod_fraction_read (nano : Nat) : (nano * 1000000) % 1000000 = 0 ∧ (nano * 1000000) / 1000000 = nano := by
   constructor <;> omega
+
+/-! ### the renderer's vocabulary (generated tables) -/
+
+open RenderWords in
+/-- Every word in capitals that renderer.rs can write is a word the front end knows: one reserved-word token of the
+lexer, or a word the grammar matches by its text.  The exception named in the statement is the recorded finding
+C10-task-interval (the renderer writes `INTERNAL` for `INTERVAL`); no other literal is excused. -/
+theorem renderer_words_are_keywords (l : String × String × String) (hl : l ∈ Gen.renderLits) (hk : kwShaped l.2.2 = true) :
+    reservedWord l.2.2 = true ∨ textKeyword l.2.2 = true ∨ l.2.2 = "INTERNAL" := by
+  have h := List.all_eq_true.mp wordsOk_true l hl
+  simp only [hk, Bool.not_true, Bool.false_or, Bool.or_eq_true, beq_iff_eq] at h
+  rcases h with (h | h) | h
+  · exact Or.inl h
+  · exact Or.inr (Or.inl h)
+  · exact Or.inr (Or.inr h)
+
+open RenderWords in
+/-- For every operator row of the `precedence!` block the renderer has a match arm for exactly that operator
+(`CompareOp::X` / `Operator::X`) whose text the lexer reads as one token of the row's type: what is written for an
+operator is read back as that operator. -/
+theorem renderer_operators_are_table_tokens (row : Gen.PrecRow) (hr : row ∈ Gen.prec) :
+    ∃ l ∈ Gen.renderLits, l.1 = "arm" ∧ l.2.1 = row.opEnum ++ "::" ++ row.op ∧ lexesAs l.2.2 row.token = true := by
+  have h := List.all_eq_true.mp operatorsOk_true row hr
+  obtain ⟨l, hl, h⟩ := List.any_eq_true.mp h
+  simp only [Bool.and_eq_true, beq_iff_eq] at h
+  exact ⟨l, hl, h.1.1, h.1.2, h.2⟩
+
+open RenderWords in
+/-- `-` and `NOT`, the texts of the arms for the unary operators, lex to the tokens the unary rule reads -/
+theorem renderer_unary_operators :
+    (∃ l ∈ Gen.renderLits, l.1 = "arm" ∧ l.2.1 = "UnaryOp::Neg" ∧ lexesAs l.2.2 "Minus" = true) ∧
+    (∃ l ∈ Gen.renderLits, l.1 = "arm" ∧ l.2.1 = "UnaryOp::Not" ∧ lexesAs l.2.2 "Not" = true) := by
+  have h := unaryOk_true
+  simp only [unaryOk, Bool.and_eq_true] at h
+  obtain ⟨h1, h2⟩ := h
+  obtain ⟨l1, hl1, h1⟩ := List.any_eq_true.mp h1
+  obtain ⟨l2, hl2, h2⟩ := List.any_eq_true.mp h2
+  simp only [Bool.and_eq_true, beq_iff_eq] at h1 h2
+  exact ⟨⟨l1, hl1, h1.1.1, h1.1.2, h1.2⟩, ⟨l2, hl2, h2.1.1, h2.1.2, h2.2⟩⟩
+
+open RenderWords in
+/-- Everything renderer.rs passes to `write` / `write_ws` as a literal is text the lexer reads without a lexical error. -/
+theorem renderer_direct_literals_lex (l : String × String × String) (hl : l ∈ Gen.renderLits) (hd : l.1 ≠ "arm") :
+    (lexItems l.2.2.toList).isEmpty = false ∧ ∀ i ∈ lexItems l.2.2.toList, i.err = false := by
+  have h := List.all_eq_true.mp directOk_true l hl
+  simp only [Bool.or_eq_true, beq_iff_eq, Bool.and_eq_true, Bool.not_eq_true', List.all_eq_true] at h
+  rcases h with h | h
+  · exact absurd h hd
+  · exact ⟨h.1, h.2⟩
+
+/-- non-vacuity: `END_IF`, `PRIORITY` and `=>`-free operator `<=` are in the table with the shapes the theorems speak of -/
+example : ("write_ws", "", "END_IF") ∈ Gen.renderLits ∧ RenderWords.kwShaped "END_IF" = true ∧
+    ("arm", "CompareOp::LtEq", "<=") ∈ Gen.renderLits := by decide +kernel
 
 end C10
